@@ -391,6 +391,53 @@ def generate(rng, tier):
     A("addr.history", "h", hh[:19].hex(), "o.m.o")
     A("addr.history", "s", text(address(0x6f, hh)[:-1]), "o.m.o")
 
+    # ============================================================ crafted near-valid strings
+    # payloads whose 4-byte checksum ends in 00 / starts with 00 (found by search), then: last byte dropped, 00 appended,
+    # leading 00 inserted / removed, a '1' character added / removed in front — each WITHOUT fixing the checksum and WITH a
+    # checksum recomputed over the altered body.  Accepted only when it is exactly version || body || checksum of the right length.
+    import hashlib
+
+    def crafted(op, payload):
+        full = payload + sha256d(payload)[:4]
+        outs = [full[:-1], full + b"\x00", b"\x00" + full, full[1:], full[:-1] + b"\x00", full[:-2], full[:-4]]
+        for body in (payload[:-1], payload + b"\x00", b"\x00" + payload, payload[1:], payload[:-1] + b"\x00"):
+            outs.append(body + sha256d(body)[:4])
+        for raw in outs:
+            A(op, text(b58enc(raw)))
+        st = b58enc(full)
+        A(op, text(st)); A(op, text("1" + st)); A(op, text(st[1:])); A(op, text("11" + st))
+
+    def search(prefix_bytes, bodylen, want_end):
+        i = 0
+        while True:
+            body = hashlib.sha256(b"c07-%d-%d" % (bodylen, i)).digest() * 2
+            payload = prefix_bytes + body[:bodylen]
+            ck = sha256d(payload)[:4]
+            if (want_end and ck[3] == 0) or (not want_end and ck[0] == 0):
+                return payload
+            i += 1
+
+    for pre in (0x00, 0x6f, 0x05, 0x90, 0xff):
+        for want_end in (True, False):
+            crafted("addr.from_string", search(bytes([pre]), 20, want_end))
+    # a hash that itself starts / ends with 00 together with a checksum ending in 00
+    crafted("addr.from_string", search(b"\x00\x00", 19, True))
+    crafted("addr.from_string", search(b"\x6f\x00", 19, True))
+    for want_end in (True, False):
+        for c in (0, 1):
+            # WIF: version 80, 32 key bytes (top bit cleared so that the key is in range), optional 01
+            p = search(b"\x80\x01", 31, want_end)
+            if c:
+                i = 0
+                while True:
+                    body = b"\x80\x01" + hashlib.sha256(b"c07w-%d" % i).digest()[:31] + b"\x01"
+                    ck = sha256d(body)[:4]
+                    if (want_end and ck[3] == 0) or (not want_end and ck[0] == 0):
+                        p = body
+                        break
+                    i += 1
+            crafted("key.from_wif", p)
+
     # every sighash flag value, signatures whose DER has leading-zero / high-bit integers
     for fl in (0x40, 0x01, 0x02, 0x03, 0x80, 0x41, 0x42, 0x43, 0xc1, 0xc2, 0xc3, 0x81, 0x82, 0x83):
         A("pub.unlock_own", pub_of(ks[6], True).hex(), "6f", der(2 ** 255 + 1, 2 ** 247).hex(), "%02x" % fl)
